@@ -9,6 +9,21 @@
 
   Model: `QV.Model.Include` (the include stack of `fs::Parser::next`).  Spec:
   `QV.Spec.Include.readFile` (recursive semantics, no stack).
+
+  PROVED
+   * the machine refines the recursive semantics, terminates, never panics
+     (`C25_machine_refines_spec`, `C25_total`); depth limit, context in / context out, origin
+     restored, path examples;
+   * three invariances of the in-memory parser, each by a chain over every function of its model:
+     compositionality at line ends (`C25_parse_append`, `C25_line_frame`), independence of the
+     line counter (`C25_line_shift`), reader outside parentheses after a reading
+     (`C25_ends_outside_parens`);
+   * from these, the literal "textual inclusion": for file trees of any nesting, cut at their
+     `$INCLUDE` lines, the records of the tree reading are the records of the flattened text, the
+     origin scoping emulated by `$ORIGIN` lines (`C25_flatten_tree_partial`,
+     `C25_flatten_machine_partial`, `C25_origin_line`); special cases
+     `C25_include_is_textual_partial`, `C25_flatten_one_partial`.
+  NOT PROVED: see "What is not proved" below.
 -/
 import QV.Proofs.Include
 import QV.Proofs.ZoneFile.Compose
